@@ -167,6 +167,18 @@ def cmd_run(pid, tier, keep=False):
     assert len(set(names)) == len(names), 'duplicate unit names'
     with cf.ThreadPoolExecutor(NCPU) as ex:
         results = list(ex.map(lambda u: build_unit(u, bdir), units))
+    # a compiler that was killed or ran out of memory under load (no diagnostic of its own) says nothing about
+    # the code: such units are rebuilt once, two at a time. A unit with a compiler diagnostic fails at once.
+    def transient(log):
+        return ('error' not in log) or any(k in log for k in ('Killed', 'internal compiler error', 'virtual memory exhausted',
+                                                               'annot allocate', 'bad_alloc', 'out of memory', 'No space left', 'Resource temporarily'))
+    retry = [i for i, (ok, log) in enumerate(results) if not ok and transient(log)]
+    if retry:
+        print('note: rebuilding %d unit(s) whose compiler died without a diagnostic' % len(retry))
+        with cf.ThreadPoolExecutor(2) as ex:
+            again = list(ex.map(lambda i: build_unit(units[i], bdir), retry))
+        for i, r in zip(retry, again):
+            results[i] = r
     failed = [(u, log) for u, (ok, log) in zip(units, results) if not ok]
     infra = []
     if failed:
@@ -196,7 +208,12 @@ def cmd_run(pid, tier, keep=False):
         # the deadline budgets the exploration, not the compilation: a slow (loaded) machine must not turn a
         # check into a vacuous pass because the build alone used up the time
         left = deadline_s - (time.time() - t_built)
-        return t, run_shard(u, i, n, out, left)
+        r = run_shard(u, i, n, out, left)
+        if r[0] in (-9, 137):
+            # killed from outside (out-of-memory killer under load): the worker is deterministic, run it once more
+            left = deadline_s - (time.time() - t_built)
+            r = run_shard(u, i, n, out, left)
+        return t, r
 
     recs = []
     with cf.ThreadPoolExecutor(NCPU) as ex:
